@@ -34,14 +34,16 @@ pub struct SrvCfg {
     pub distinct: bool,
     pub dup: u8,
     pub ipv6: bool,
+    /// with `distinct`: the send directory is NOT given explicitly (`-d <srv> -rd <up>`), so it must fall back to -d
+    pub rd_only: bool,
 }
 
 impl SrvCfg {
     pub fn basic() -> SrvCfg {
-        SrvCfg { single: false, read_only: false, overwrite: false, keep: false, distinct: false, dup: 0, ipv6: false }
+        SrvCfg { single: false, read_only: false, overwrite: false, keep: false, distinct: false, dup: 0, ipv6: false, rd_only: false }
     }
     pub fn key(&self) -> String {
-        format!("s{}r{}o{}k{}d{}n{}v{}", self.single as u8, self.read_only as u8, self.overwrite as u8, self.keep as u8, self.distinct as u8, self.dup, self.ipv6 as u8)
+        format!("s{}r{}o{}k{}d{}n{}v{}f{}", self.single as u8, self.read_only as u8, self.overwrite as u8, self.keep as u8, self.distinct as u8, self.dup, self.ipv6 as u8, self.rd_only as u8)
     }
     pub fn brief(&self) -> String {
         let mut v = vec![];
@@ -55,7 +57,7 @@ impl SrvCfg {
         if self.keep {
             v.push("keep-on-error");
         }
-        v.push(if self.distinct { "distinct -sd/-rd" } else { "shared dir" });
+        v.push(if self.distinct && self.rd_only { "distinct dirs (-d + -rd, send dir by fallback)" } else if self.distinct { "distinct -sd/-rd" } else { "shared dir" });
         let mut s = v.join(",");
         if self.dup > 0 {
             s.push_str(&format!(",dup={}", self.dup));
@@ -66,7 +68,7 @@ impl SrvCfg {
         s
     }
     pub fn to_json(&self) -> serde_json::Value {
-        serde_json::json!({"single": self.single, "read_only": self.read_only, "overwrite": self.overwrite, "keep": self.keep, "distinct": self.distinct, "dup": self.dup, "ipv6": self.ipv6})
+        serde_json::json!({"single": self.single, "read_only": self.read_only, "overwrite": self.overwrite, "keep": self.keep, "distinct": self.distinct, "dup": self.dup, "ipv6": self.ipv6, "rd_only": self.rd_only})
     }
     pub fn from_json(v: &serde_json::Value) -> SrvCfg {
         SrvCfg {
@@ -77,11 +79,14 @@ impl SrvCfg {
             distinct: v["distinct"].as_bool().unwrap_or(false),
             dup: v["dup"].as_u64().unwrap_or(0) as u8,
             ipv6: v["ipv6"].as_bool().unwrap_or(false),
+            rd_only: v["rd_only"].as_bool().unwrap_or(false),
         }
     }
     pub fn args(&self, port: u16, root: &str) -> Vec<String> {
         let mut a: Vec<String> = vec!["tftpd".into(), "-i".into(), if self.ipv6 { "::1".into() } else { "127.0.0.1".into() }, "-p".into(), port.to_string()];
-        if self.distinct {
+        if self.distinct && self.rd_only {
+            a.extend(["-d".into(), format!("{root}/srv"), "-rd".into(), format!("{root}/up")]);
+        } else if self.distinct {
             a.extend(["-d".into(), format!("{root}/srv"), "-sd".into(), format!("{root}/srv"), "-rd".into(), format!("{root}/up")]);
         } else {
             a.extend(["-d".into(), format!("{root}/srv")]);
